@@ -193,7 +193,14 @@ def main(chk):
         try:
             save_match(al, pp, part, out=fn, mpq=mpq, ppq=ppq, assume_unfolded=True)
         except Exception as ex:
-            chk.violation("c2s", "save_match.raises", {"cid": cid, "exc": repr(ex)}, op="save", exc=type(ex).__name__)
+            # (how many matches have a score note with a duration: the time map of the exporter is built from those alone)
+            durs = {str(r["id"]): int(r["duration_div"]) for r in part.note_array()}
+            with_dur = sum(1 for a in al if a["label"] == "match" and durs.get(str(a["score_id"]), 0) > 0)
+            chk.violation("c2s", "save_match.raises", {"cid": cid, "exc": repr(ex), "alignment": al,
+                                                        "score_notes": [[n.id, type(n).__name__, n.start.t, n.end.t] for n in part.notes]},
+                          replay={"alignment": al, "performed_notes": [{k: v for k, v in n.items() if not k.startswith("_")} for n in notes],
+                                  "score_notes": [[n.id, type(n).__name__, n.start.t, n.end.t] for n in part.notes], "ppq": ppq, "mpq": mpq},
+                          op="save", exc=type(ex).__name__, matches_with_duration=with_dur)
             continue
         if json.dumps(al, sort_keys=True) != al_before:
             chk.violation("c2s", "save_match.modifies_alignment", {"cid": cid}, op="save")
